@@ -136,6 +136,17 @@ class ScopeGen:
             body.append("  };")
             probes.append(["m", "y"])
             probes.append(["m", "z"])
+        with_probes: list[list[str]] = []
+        if self.allow_with and rng.random() < 0.3:
+            # a nested `with` expression as attribute value: its environment is weak against every enclosing
+            # let / rec / formal, also when the expression is reached through a handle taken earlier
+            env = " ".join("%s = %s;" % (n, self.lit()) for n in NAMES if rng.random() < 0.7) or ("k%d = %s;" % (self.k + 1, self.lit()))
+            yn, zn = rng.sample(NAMES, 2)
+            body.append("  w = with { %s }; {" % env)
+            body.append("    y = %s;" % yn)
+            body.append("    z = %s;" % zn)
+            body.append("  };")
+            with_probes = [["w", "y"], ["w", "z"]]
         deref: list[list[str]] = []
         if self.helpers and rng.random() < 0.7:
             # reach a helper set through a name and look at the reference inside it
@@ -145,9 +156,10 @@ class ScopeGen:
         if not probes:
             body.append("  x1 = n1;")
             probes.append(["x1"])
-        rng.shuffle(body) if rng.random() < 0.3 and not any(l.startswith("  m = ") or l.startswith("    ") or l == "  };" for l in body) else None
+        rng.shuffle(body) if rng.random() < 0.3 and not any(l.startswith("  m = ") or l.startswith("  w = ") or l.startswith("    ") or l == "  };" for l in body) else None
         text = "\n".join(out)
         if out:
             text += "\n"
         text += call + ("rec " if rec else "") + "{\n" + "\n".join(body) + "\n}\n"
-        return {"text": text, "probes": probes, "deref_probes": deref}
+        # (`deref_probes` and `with_probes` are not NPaths: the resolution engine uses them, the edit engine does not)
+        return {"text": text, "probes": probes, "deref_probes": deref + with_probes}
